@@ -340,8 +340,8 @@ def wrap_free(R, rule, fn, inline=(), roots=('+',), known=None):
         for _ in range(4):
             usable = [c for c in conds if not any(_sym.contains(c, f) for f in flagged)]
             facts = eng.strict_facts(usable)
-            w = eng.narrow_wraps(terms, facts, maximal=True)
-            new = {t for t, qt, why in w if t[0] in roots or any(x[0] == '+' and x in eng.optype for x in _sym.subterms(t))}
+            w = eng.narrow_wraps(terms, facts, maximal=True, wide_diffs=True)
+            new = {t for t, qt, why in w if t[0] in roots or t[0] == '-' or any(x[0] == '+' and x in eng.optype for x in _sym.subterms(t))}
             # narrowing conversions of sums
             for c in terms:
                 for x in _sym.subterms(c):
@@ -360,8 +360,9 @@ def wrap_free(R, rule, fn, inline=(), roots=('+',), known=None):
         ck.holds(rule, fn + ':wrap', where, 'no address sum of %s can wrap around 2^32 (%d paths)' % (fn, len(ps)))
     for txt, p in sorted(found.items()):
         ck.violation(rule, '%s:wrap:%s' % (fn, txt), where,
-                     'the sum %s is computed in 32 bits and is not proved to stay below 2^32 on the path {%s}: at the top of the address '
-                     'space it wraps, and the comparison that uses it decides the opposite' % (txt, '; '.join(sym.fmt(c) for c in p.cond_terms())[:260]))
+                     'the sum / difference %s is computed in 32 bits and is not proved to stay inside [0, 2^32) on the path {%s}: it wraps '
+                     '(a sum at the top of the address space, a difference whose subtrahend is the larger), and the comparison that uses it decides the opposite'
+                     % (txt, '; '.join(sym.fmt(c) for c in p.cond_terms())[:260]))
 
 
 def callback_guard(R, rule, fn, inline=()):
